@@ -824,10 +824,11 @@ impl C08Onchain {
                     co.tags.insert("accepted:beneficial>inputs".into());
                 }
                 // fee velocity
-                let (limit, wlen) = {
-                    let s = node.get_state();
-                    let v = &s.fee_velocity_control;
-                    (v.limit, (v.buckets.len() as u64 - 1) * v.bucket_interval as u64)
+                // limit and window from the CONFIGURED policy spec, not from the node's control (which a defect may have replaced)
+                let (limit, wlen): (u64, u64) = match env.spec.interval_type {
+                    VelocityControlIntervalType::Hourly => (env.spec.limit_msat, 11 * 300),
+                    VelocityControlIntervalType::Daily => (env.spec.limit_msat, 23 * 3600),
+                    VelocityControlIntervalType::Unlimited => (u64::MAX, 0),
                 };
                 let msat = (nb * 1000).min(u64::MAX as u128) as u64;
                 if passed_ok {
